@@ -38,6 +38,7 @@ type Engine struct {
 	globalInit map[*ssa.Global]bool
 	esc        *escOracle
 	overlaySrc map[string][]byte
+	aliases    map[string]map[string]string // alias.go: function key -> current name -> recorded name
 }
 
 func (e *Engine) stringID(s string) int {
@@ -291,6 +292,7 @@ func (vc *VC) finish() {
 		result = SVal{K: KTuple, T: sig.Results(), F: merged}
 	}
 	bindResults(env, sig, result)
+	vc.eng.aliasEnv(env, vc.selfKey())
 	// cover: the exit is reachable under the precondition
 	cv := vc.oblige("cover", Rexit, "false", vc.fn.Pos(), "cover: some return is reachable under the precondition")
 	cv.Cover = true
@@ -330,6 +332,7 @@ func (vc *VC) finish() {
 			fres = SVal{K: KTuple, T: sig.Results(), F: fr}
 		}
 		bindResults(freeEnv, sig, fres)
+		vc.eng.aliasEnv(freeEnv, vc.selfKey())
 	}
 	// A function that changes memory and has several return sites gets one obligation per
 	// (clause, return site), named #ensures.K/rN (N = ordinal of the return statement in source
@@ -370,6 +373,7 @@ func (vc *VC) finish() {
 				envi.vars[k] = v
 			}
 			bindResults(envi, sig, ri)
+			vc.eng.aliasEnv(envi, vc.selfKey())
 			for _, c := range vc.con.Ensures {
 				o := vc.oblige("ensures", vc.retR[i], vc.evalBool(c.E, envi), retPos(i), c.Text)
 				o.Name = fmt.Sprintf("%s#ensures.%d/r%d", vc.fname(), c.Ord, n+1)
